@@ -4,8 +4,8 @@
    under a `_partial` twin (see DESIGN.md section 9). *)
 From Coq Require Import List String Bool Permutation.
 Import ListNotations.
-From DI Require Import Syntax Tokens Bounds Param Subs Superset Substitute Spec RustSem Group Validate Dispatch Examples ExamplesGroup.
-From DI.proofs Require Import Basics SupersetSound SupersetExact SubstituteProofs BoundsProofs DispatchProofs GroupProofs ParamProofs RustSemProofs ValidateProofs.
+From DI Require Import Syntax Tokens Bounds Param Subs Superset Substitute Spec RustSem Group Validate IMap Hygiene Dispatch Examples ExamplesGroup.
+From DI.proofs Require Import Basics SupersetSound SupersetExact SubstituteProofs BoundsProofs DispatchProofs GroupProofs ParamProofs RustSemProofs ValidateProofs IMapProofs HygieneProofs.
 
 (* ===================================================================================== *)
 (* C09 -- header generalisation is exact first-order matching                             *)
@@ -335,3 +335,39 @@ Theorem C14_trait_in_inherent_mode : forall pre i post n,
   validate_inherent (pre ++ i :: post) = Some ExpectedInherent.
 Proof. exact trait_in_inherent_mode_diagnosed. Qed.
 Print Assumptions C14_trait_in_inherent_mode.
+
+(* ===================================================================================== *)
+(* C07 -- deterministic expansion: the only per-process input of the code is the hasher of  *)
+(* its IndexMap/IndexSet; a table over a key type whose equal keys hash equally (C12 for    *)
+(* TraitBound; derived for syn nodes; Tokenized) is hasher-independent                      *)
+(* ===================================================================================== *)
+
+Theorem C07_hasher_irrelevant : forall (K V H : Type) (keq : K -> K -> bool) (heq : H -> H -> bool),
+  (forall h, heq h h = true) ->
+  forall hf1 hf2, consistent K H keq heq hf1 -> consistent K H keq heq hf2 ->
+  forall (m : imap K V) k v k2,
+    insert_h K V H keq heq hf1 m k v = insert_h K V H keq heq hf2 m k v /\
+    get_h K V H keq heq hf1 m k2 = get_h K V H keq heq hf2 m k2.
+Proof. intros K V H keq heq Hr. exact (two_hashers K V H keq heq). Qed.
+Print Assumptions C07_hasher_irrelevant.
+
+(* ===================================================================================== *)
+(* C08 -- scope hygiene and trait fidelity (model of the final assembly; the check compares *)
+(* it token for token with `-Zunpretty=expanded` of the real entry point)                   *)
+(* ===================================================================================== *)
+
+Theorem C08_trait_then_one_const : forall t h i m,
+  firstn (List.length t) (assemble t h i m) = t /\
+  skipn (List.length t) (assemble t h i m) = anon_const h i m.
+Proof. exact assemble_trait_prefix. Qed.
+Print Assumptions C08_trait_then_one_const.
+
+Theorem C08_inherent_only_const : forall h i m, assemble [] h i m = anon_const h i m.
+Proof. exact assemble_inherent. Qed.
+Print Assumptions C08_inherent_only_const.
+
+Theorem C08_no_helper_leaks : forall user (invs : list (option string * list string)),
+  declared (user ++ flat_map (fun inv => expansion_items (fst inv) (snd inv)) invs) =
+  declared user ++ flat_map (fun inv => match fst inv with Some n => [n] | None => [] end) invs.
+Proof. exact no_helper_leaks. Qed.
+Print Assumptions C08_no_helper_leaks.
